@@ -28,11 +28,17 @@ META = {
     "shape over <= 4 fields and every non-empty combiner, combiner_all is exactly the reference's closure over inner-linked fields "
     "(C02_linked_le4, kernel evaluation of all 51 shapes); the whole pipeline equals the stable group-by reference on every shape "
     "with <= 3 fields, every combiner, lengths 1-2 (C02_small_scope, bounded) and on the two repaired D34 shapes "
-    "(C02_regression_D34).  PARTIAL: the statement for arbitrary list lengths that the groups come out in first-occurrence order "
-    "of the remaining-axes assignments (C02_full_statement) is not proved; that link is covered by the correspondence only.",
+    "(C02_regression_D34).  First-occurrence order for lists of ANY non-zero length: the rows projected to the kept fields are the "
+    "reduced tree's rows indexed by the mixed-radix pattern pat(shape, mask) (claimA) whose first occurrences come in increasing "
+    "order (nub_pat), so for every splitter over <= 4 distinct fields the public output equals the reference's stable group-by on "
+    "the fields outside combiner_all when that set is closed under inner links (C02_order_partial, decidable hypothesis), and "
+    "with C02_linked_le4 the property itself holds for every binary-bracketed shape over <= 4 canonically labelled fields, every "
+    "non-empty combiner, every assignment of non-empty lists (C02_full_le4).  PARTIAL: one theorem for arbitrary field names, n-ary "
+    "spellings and > 4 fields (C02_full_statement) is not proved — missing is a general proof that splits_groups' combiner_all is "
+    "the linked closure (evaluated for the 51 shapes only).",
     "note": "Trusted: Lean kernel; hand-written model of splits_groups / combine_final_groups / remove_inp_from_splitter_rpn / "
     "prepare_states_combined_ind / LazyOutField group_values; the identity splitter2rpn(rpn2splitter(rpn)) = rpn is assumed in the "
-    "model; the link 'reduced tree enumerates the distinct projections in first-occurrence order' is tested, not proved.",
+    "model; combiner_all = linked closure is established by kernel evaluation of the 51 shapes with <= 4 fields, not in general.",
     "rule": "case = (splitter tree over <= 4 fields (5 for model fidelity), list length 1-3 per field, non-empty combiner subset of its "
     "fields), observed through Task.split().combine()(); distinct by canonical JSON; non-trivial = >= 2 fields, >= 2 jobs and the "
     "combiner closure is a proper subset of the fields or the tree has an inner product",
@@ -53,6 +59,10 @@ OBLIGATIONS = [
         "C02_public_is_mapping",
         "evalBin_nodup",
         "C02_public_partition_le4",
+        "nub_pat",
+        "claimA",
+        "C02_order_partial",
+        "C02_full_le4",
         "removeRPN_rpn",
         "C02_remove",
         "C02_all_axes",
